@@ -195,18 +195,15 @@ fn main() {
     {
         let mut n = 0usize;
         for d in [(1, 1), (-1, 1), (1, -1), (-1, -1), (2, 1), (-2, 1), (1, 2), (1, -2), (-2, -1), (2, -1), (-1, 2), (-1, -2)] {
-            for k in 1..=2 {
+            for (k1, k2) in [(1, 1), (1, 2), (2, 1), (3, 1), (1, 3)] {
                 let a = (0, 0);
-                let b = (a.0 + d.0, a.1 + d.1);
-                let c = (b.0 + k * d.0, b.1 + k * d.1);
+                let b = (a.0 + k1 * d.0, a.1 + k1 * d.1);
+                let c = (b.0 + k2 * d.0, b.1 + k2 * d.1);
                 for ex in -3..=3 {
                     for ey in -3..=3 {
                         n += 1;
-                        if !th && n % 2 == 0 {
-                            continue;
-                        }
                         let e = (c.0 + ex, c.1 + ey);
-                        let w = 2 + (n as u32 % 2);
+                        let w = if th { 2 + (n as u32 % 3) } else { 2 };
                         let v = if n % 3 == 0 { json!([[e.0, e.1], [a.0, a.1], [b.0, b.1], [c.0, c.1]]) } else { json!([[a.0, a.1], [b.0, b.1], [c.0, c.1], [e.0, e.1]]) };
                         let shape = json!({"k":"polyline","v":v,"off":[0, 0]});
                         run_case(&mut rec, &json!({"d": {"kind":"prim","shape":shape,"style":style_desc(-1, col.stroke, w, 1)}, "ct": "Rgb565"}));
